@@ -261,3 +261,741 @@ Proof.
     repeat split; try assumption. eauto. }
   rewrite Hv. eauto.
 Qed.
+
+(* ======================================================================================================= *)
+(* order = "find_min" *)
+From Coq Require Import Lqa.
+
+(* generic list facts *)
+Lemma in_somes {A} (l:list (option A)) x : In x (somes l) <-> In (Some x) l.
+Proof.
+  induction l as [|[y|] t IH]; cbn [somes In].
+  - tauto.
+  - rewrite IH. split; intros [H|H]; auto. left; congruence. inversion H; auto.
+  - rewrite IH. split; [auto|]. intros [H|H]; [discriminate|auto].
+Qed.
+
+Lemma Forall_exists_Forall2 {A B} (R:A->B->Prop) l : Forall (fun a => exists b, R a b) l -> exists l', Forall2 R l l'.
+Proof. induction 1 as [|a t [b Hb] _ [l' IH]]; [exists []; constructor|exists (b::l'); constructor; assumption]. Qed.
+
+Lemma F2_length {A B} (R:A->B->Prop) l1 l2 : Forall2 R l1 l2 -> length l1 = length l2.
+Proof. induction 1; cbn; [reflexivity|lia]. Qed.
+
+Lemma F2_impl {A B} (R S:A->B->Prop) l1 l2 : (forall a b, R a b -> S a b) -> Forall2 R l1 l2 -> Forall2 S l1 l2.
+Proof. intros H. induction 1; constructor; auto. Qed.
+
+Lemma FOP_tail {A} (R:A->A->Prop) a l : ForallOrdPairs R (a::l) -> ForallOrdPairs R l.
+Proof. intros H; inversion H; assumption. Qed.
+
+Lemma Forall2_nth {A B} (R:A->B->Prop) l1 l2 : Forall2 R l1 l2 ->
+  forall k a b, nth_error l1 k = Some a -> nth_error l2 k = Some b -> R a b.
+Proof.
+  induction 1 as [|x y t u Hxy H IH]; intros k a b Ha Hb; destruct k; cbn in *; try discriminate.
+  - inversion Ha; inversion Hb; subst; assumption.
+  - eapply IH; eassumption.
+Qed.
+
+Lemma Forall2_from_nth {A B} (R:A->B->Prop) l1 l2 : length l1 = length l2 ->
+  (forall k a b, nth_error l1 k = Some a -> nth_error l2 k = Some b -> R a b) -> Forall2 R l1 l2.
+Proof.
+  revert l2. induction l1 as [|a t IH]; intros [|b u] Hl H; cbn in Hl; try discriminate; constructor.
+  - apply (H 0%nat); reflexivity.
+  - apply IH; [lia|]. intros k x y Hx Hy. apply (H (S k)); assumption.
+Qed.
+
+Lemma Forall2_comp {A B C} (R:A->B->Prop) (S:B->C->Prop) l1 l2 l3 : Forall2 R l1 l2 -> Forall2 S l2 l3 ->
+  Forall2 (fun a c => exists b, R a b /\ S b c) l1 l3.
+Proof.
+  intros H. revert l3. induction H as [|a b t u Hab H IH]; intros l3 H3; inversion H3; subst; constructor; eauto.
+Qed.
+
+Lemma FOP_nth {A} (R:A->A->Prop) l : ForallOrdPairs R l ->
+  forall m k a b, (m < k)%nat -> nth_error l m = Some a -> nth_error l k = Some b -> R a b.
+Proof.
+  induction 1 as [|x t Hx H IH]; intros m k a b Hmk Ha Hb.
+  - destruct m; discriminate.
+  - destruct k as [|k]; [lia|]. cbn in Hb. destruct m as [|m]; cbn in Ha.
+    + inversion Ha; subst. rewrite Forall_forall in Hx. apply Hx. eapply nth_error_In; eassumption.
+    + apply (IH m k); [lia|assumption|assumption].
+Qed.
+
+Lemma nth_error_len_some {A} (l:list A) k : (k < length l)%nat -> exists x, nth_error l k = Some x.
+Proof. intros H. destruct (nth_error l k) eqn:E; [eauto|]. apply nth_error_None in E. lia. Qed.
+
+(* np.unique *)
+Lemma insert_u_in x l y : In y (insert_u x l) -> y = x \/ In y l.
+Proof.
+  induction l as [|z t IH]; cbn [insert_u]; [intros [H|[]]; auto|].
+  destruct (x ?= z); cbn [In]; intros H.
+  - right; exact H.
+  - destruct H as [H|H]; [left; symmetry; exact H|right; exact H].
+  - destruct H as [H|H]; [auto|]. destruct (IH H); auto.
+Qed.
+
+Lemma insert_u_keeps x l y : In y l -> In y (insert_u x l).
+Proof.
+  induction l as [|z t IH]; cbn [insert_u]; [intros []|]. intros H.
+  destruct (x ?= z); cbn [In]; [exact H|right; exact H|]. destruct H; auto.
+Qed.
+
+Lemma insert_u_has x l : exists y, In y (insert_u x l) /\ y == x.
+Proof.
+  induction l as [|z t IH]; cbn [insert_u]; [exists x; split; [left; reflexivity|reflexivity]|].
+  destruct (x ?= z) eqn:E.
+  - apply Qeq_alt in E. exists z. split; [left; reflexivity|symmetry; exact E].
+  - exists x. split; [left; reflexivity|reflexivity].
+  - destruct IH as (y&Hy&Hyx). exists y. split; [right; exact Hy|exact Hyx].
+Qed.
+
+Lemma insert_u_sorted x l : StronglySorted Qlt l -> StronglySorted Qlt (insert_u x l).
+Proof.
+  induction 1 as [|z t Ht IH Hz]; cbn [insert_u].
+  - constructor; constructor.
+  - destruct (x ?= z) eqn:E.
+    + constructor; assumption.
+    + apply Qlt_alt in E. constructor; [constructor; assumption|]. constructor; [exact E|].
+      rewrite Forall_forall in *. intros w Hw. specialize (Hz w Hw). lra.
+    + apply Qgt_alt in E. constructor; [exact IH|]. rewrite Forall_forall in *. intros w Hw.
+      destruct (insert_u_in _ _ _ Hw) as [Hw'|Hw']; [subst; exact E|apply Hz; exact Hw'].
+Qed.
+
+Lemma uniq_sorted_sorted l : StronglySorted Qlt (uniq_sorted l).
+Proof. induction l as [|x t IH]; cbn; [constructor|apply insert_u_sorted; exact IH]. Qed.
+
+Lemma uniq_sorted_in l y : In y (uniq_sorted l) -> In y l.
+Proof.
+  induction l as [|x t IH]; cbn [uniq_sorted fold_right]; [auto|]. intros H.
+  destruct (insert_u_in _ _ _ H) as [H'|H']; [left; auto|right; apply IH; exact H'].
+Qed.
+
+Lemma uniq_sorted_has l x : In x l -> exists y, In y (uniq_sorted l) /\ y == x.
+Proof.
+  induction l as [|z t IH]; [intros []|]. cbn [uniq_sorted fold_right]. intros [H|H].
+  - subst. apply insert_u_has.
+  - destruct (IH H) as (y&Hy&Hyx). exists y. split; [apply insert_u_keeps; exact Hy|exact Hyx].
+Qed.
+
+(* two strictly increasing lists with the same elements up to == are equal element by element *)
+Lemma sorted_Qeq_ext l1 : forall l2, StronglySorted Qlt l1 -> StronglySorted Qlt l2 ->
+  (forall x, In x l1 -> exists y, In y l2 /\ x == y) -> (forall y, In y l2 -> exists x, In x l1 /\ x == y) ->
+  Forall2 Qeq l1 l2.
+Proof.
+  induction l1 as [|a t IH]; intros [|b u] S1 S2 H12 H21.
+  - constructor.
+  - destruct (H21 b (or_introl eq_refl)) as (x & [] & _).
+  - destruct (H12 a (or_introl eq_refl)) as (y & [] & _).
+  - inversion S1 as [|? ? S1t F1]; inversion S2 as [|? ? S2u F2]; subst.
+    rewrite Forall_forall in F1, F2.
+    assert (Hab : a == b).
+    { destruct (H12 a (or_introl eq_refl)) as (y & [Hy|Hy] & Hay); [subst; exact Hay|].
+      destruct (H21 b (or_introl eq_refl)) as (x & [Hx|Hx] & Hxb); [subst; exact Hxb|].
+      exfalso. specialize (F1 x Hx). specialize (F2 y Hy). lra. }
+    constructor; [exact Hab|]. apply IH; try assumption.
+    + intros x Hx. destruct (H12 x (or_intror Hx)) as (y & [Hy|Hy] & Hxy); [|eauto].
+      subst y. exfalso. specialize (F1 x Hx). lra.
+    + intros y Hy. destruct (H21 y (or_intror Hy)) as (x & [Hx|Hx] & Hxy); [|eauto].
+      subst x. exfalso. specialize (F2 y Hy). lra.
+Qed.
+
+(* tables built by map2 *)
+Lemma nth_error_map2 {A B C} (h:A->B->C) l1 l2 n :
+  nth_error (map2 h l1 l2) n = match nth_error l1 n, nth_error l2 n with Some a, Some b => Some (h a b) | _, _ => None end.
+Proof.
+  revert l2 n. induction l1 as [|a t IH]; intros [|b u] [|n]; cbn [map2 nth_error]; try reflexivity.
+  - destruct (nth_error t n); reflexivity.
+  - apply IH.
+Qed.
+
+Lemma cell_map2 {A B C} (h:A->B->C) L F r c :
+  cell (map2 (map2 h) L F) r c = match cell L r c, cell F r c with Some a, Some b => Some (h a b) | _, _ => None end.
+Proof.
+  unfold cell. rewrite nth_error_map2.
+  destruct (nth_error L r) as [rl|]; [|reflexivity]. destruct (nth_error F r) as [rf|].
+  - apply nth_error_map2.
+  - destruct (nth_error rl c); reflexivity.
+Qed.
+
+Lemma cell_lab_tab lv Lab Fn r c p : cell (lab_tab lv Lab Fn) r c = Some (Some p) <-> stable_at lv Lab Fn c r p.
+Proof.
+  unfold lab_tab, stable_at. rewrite cell_map2.
+  destruct (cell Lab r c) as [l|]; [|split; [discriminate|intros [H _]; discriminate]].
+  destruct (cell Fn r c) as [x|]; [|split; [discriminate|intros [_ H]; discriminate]].
+  destruct (Z.eqb l lv) eqn:E.
+  - apply Z.eqb_eq in E. subst. split; [intros H; inversion H; auto|intros [_ H]; inversion H; reflexivity].
+  - apply Z.eqb_neq in E. split; [discriminate|]. intros [H _]. inversion H. contradiction.
+Qed.
+
+Lemma col_lab_tab lv Lab Fn i scol p : getcol (lab_tab lv Lab Fn) i = Some scol ->
+  (In (Some p) scol <-> exists r, stable_at lv Lab Fn i r p).
+Proof.
+  intros Hg. destruct (getcol_nth _ _ _ Hg) as [Hlen Hnth]. split.
+  - intros Hin. destruct (In_nth_error _ _ Hin) as [r Hr]. exists r. apply cell_lab_tab. eapply getcol_cell; eassumption.
+  - intros [r Hr]. apply cell_lab_tab in Hr.
+    assert (Hlt : (r < length (lab_tab lv Lab Fn))%nat).
+    { unfold cell in Hr. destruct (nth_error (lab_tab lv Lab Fn) r) eqn:E; [|discriminate]. apply nth_error_Some. rewrite E. discriminate. }
+    rewrite <- (Hnth r Hlt) in Hr. eapply nth_error_In; exact Hr.
+Qed.
+
+Section Band.
+Variable band : Q -> Q -> bool.
+
+Lemma aggv_none freq p : (forall f, In f freq -> band f p = false) -> aggv band freq p == 0.
+Proof.
+  induction freq as [|a t IH]; intros H; unfold aggv; cbn [map sumQ]; [reflexivity|].
+  rewrite (H a (or_introl eq_refl)). fold (aggv band t p). rewrite IH; [lra|]. intros f Hf. apply H. right; exact Hf.
+Qed.
+
+Lemma aggv_sep freq p : separated band freq -> (exists f, In f freq /\ band f p = true) -> aggv band freq p == p.
+Proof.
+  unfold separated. induction 1 as [|a t Ha Ht IH]; intros (f & Hf & Hb); [destruct Hf|].
+  rewrite Forall_forall in Ha. unfold aggv; cbn [map sumQ]; fold (aggv band t p).
+  destruct Hf as [Hf|Hf].
+  - subst f. rewrite Hb. rewrite aggv_none; [lra|]. intros g Hg. destruct (band g p) eqn:E; [|reflexivity].
+    exfalso. specialize (Ha g Hg p p Hb E). lra.
+  - destruct (band a p) eqn:E.
+    + exfalso. specialize (Ha f Hf p p E Hb). lra.
+    + rewrite IH by eauto. lra.
+Qed.
+
+Lemma agg_cell_some freq o s : separated band freq -> agg_cell band freq o = Some s ->
+  exists p, o = Some p /\ s == p /\ ~ p == 0 /\ exists f, In f freq /\ band f p = true.
+Proof.
+  intros Hs. destruct o as [p|]; cbn [agg_cell]; [|discriminate].
+  destruct (Qeq_bool (aggv band freq p) 0) eqn:E; [discriminate|]. intros H; inversion H; subst s; clear H.
+  apply Qeq_bool_neq in E. exists p. split; [reflexivity|].
+  assert (Hex : exists f, In f freq /\ band f p = true).
+  { destruct (existsb (fun f => band f p) freq) eqn:Ex; [apply existsb_exists in Ex; exact Ex|].
+    exfalso. apply E. apply aggv_none. intros f Hf. destruct (band f p) eqn:Eb; [|reflexivity].
+    assert (existsb (fun f => band f p) freq = true) by (apply existsb_exists; eauto). congruence. }
+  pose proof (aggv_sep freq p Hs Hex) as Heq. split; [exact Heq|]. split; [|exact Hex].
+  intros Hp0. apply E. rewrite Heq. exact Hp0.
+Qed.
+
+Lemma agg_cell_in freq p f : separated band freq -> In f freq -> region band f p ->
+  exists s, agg_cell band freq (Some p) = Some s /\ s == p.
+Proof.
+  intros Hs Hf [Hb Hnz]. cbn [agg_cell].
+  pose proof (aggv_sep freq p Hs (ex_intro _ f (conj Hf Hb))) as Heq.
+  destruct (Qeq_bool (aggv band freq p) 0) eqn:E.
+  - apply Qeq_bool_iff in E. exfalso. apply Hnz. rewrite <- Heq. exact E.
+  - eauto.
+Qed.
+
+(* V = non-NaN entries of one aggregated column *)
+Lemma agg_V_elem freq scol s : separated band freq -> In s (somes (agg_col band freq scol)) ->
+  exists p, In (Some p) scol /\ agg_cell band freq (Some p) = Some s /\ s == p /\ ~ p == 0 /\ exists f, In f freq /\ band f p = true.
+Proof.
+  intros Hs Hin. apply in_somes in Hin. unfold agg_col in Hin. apply in_map_iff in Hin. destruct Hin as (o & Ho & Hin).
+  destruct (agg_cell_some freq o s Hs Ho) as (p & -> & H1 & H2 & H3). exists p. auto.
+Qed.
+
+Lemma agg_V_has freq scol p f : separated band freq -> In (Some p) scol -> In f freq -> region band f p ->
+  exists s, In s (somes (agg_col band freq scol)) /\ s == p.
+Proof.
+  intros Hs Hin Hf Hr. destruct (agg_cell_in freq p f Hs Hf Hr) as (s & Hc & Hsp). exists s. split; [|exact Hsp].
+  apply in_somes. unfold agg_col. apply in_map_iff. exists (Some p). auto.
+Qed.
+
+Lemma agg_row_info freq rtol f p0 s u : separated band freq -> no_reach band freq rtol -> In f freq ->
+  agg_cell band freq (Some p0) = Some s -> s == u -> isclose rtol u f = true ->
+  region band f p0 /\ isclose rtol p0 f = true /\ u == p0.
+Proof.
+  intros Hs Hn Hf Hc Hsu Hcl. destruct (agg_cell_some freq (Some p0) s Hs Hc) as (p & Hp & Hsp & Hnz & g & Hg & Hb).
+  inversion Hp; subst p; clear Hp.
+  assert (Hup : u == p0) by (rewrite <- Hsu; exact Hsp).
+  assert (Hcl' : isclose rtol p0 f = true) by (rewrite <- (isclose_Qeq rtol u p0 f Hup); exact Hcl).
+  assert (g = f) by (eapply Hn; eassumption). subst g.
+  split; [split; assumption|]. split; assumption.
+Qed.
+
+Lemma forallb_combine_Forall2 {A B} (t:A*B->bool) l1 l2 : length l1 = length l2 -> forallb t (combine l1 l2) = true ->
+  Forall2 (fun a b => t (a,b) = true) l1 l2.
+Proof.
+  revert l2. induction l1 as [|a u IH]; intros [|b v] Hl H; cbn in *; try discriminate; constructor.
+  - apply andb_true_iff in H. tauto.
+  - apply IH; [lia|]. apply andb_true_iff in H. tauto.
+Qed.
+
+Definition col_spec (rtol:Q) (scol:list (option Q)) (f:Q) (p:Q) : Prop :=
+  In (Some p) scol /\ region band f p /\ isclose rtol p f = true /\
+  forall p', In (Some p') scol -> region band f p' -> p' == p.
+
+(* a qualifying column: the k-th distinct value is THE stable pole of the k-th request *)
+Lemma qual_sound freq rtol scol : separated band freq -> no_reach band freq rtol ->
+  length (uniq_sorted (somes (agg_col band freq scol))) = length freq ->
+  forallb (fun uf => isclose rtol (fst uf) (snd uf)) (combine (uniq_sorted (somes (agg_col band freq scol))) freq) = true ->
+  Forall2 (fun f u => In u (somes (agg_col band freq scol)) /\ isclose rtol u f = true /\
+                      exists p, u == p /\ col_spec rtol scol f p) freq (uniq_sorted (somes (agg_col band freq scol))).
+Proof.
+  intros Hs Hn Hlen Hall. set (V := somes (agg_col band freq scol)) in *. set (us := uniq_sorted V) in *.
+  pose proof (forallb_combine_Forall2 _ us freq Hlen Hall) as Hcl. cbn [fst snd] in Hcl.
+  apply Forall2_from_nth; [symmetry; exact Hlen|]. intros k f u Hf Hu.
+  pose proof (Forall2_nth _ _ _ Hcl k u f Hu Hf) as Hcuf.
+  assert (HuV : In u V) by (apply uniq_sorted_in; eapply nth_error_In; exact Hu).
+  split; [exact HuV|]. split; [exact Hcuf|].
+  destruct (agg_V_elem freq scol u Hs HuV) as (p & Hpin & Hpc & _).
+  assert (Hfin : In f freq) by (eapply nth_error_In; exact Hf).
+  destruct (agg_row_info freq rtol f p u u Hs Hn Hfin Hpc (Qeq_refl u) Hcuf) as (Hreg & Hclp & Hup).
+  exists p. split; [exact Hup|]. split; [exact Hpin|]. split; [exact Hreg|]. split; [exact Hclp|].
+  intros p' Hp'in Hp'reg.
+  destruct (agg_V_has freq scol p' f Hs Hp'in Hfin Hp'reg) as (s' & Hs'V & Hs'p').
+  destruct (uniq_sorted_has V s' Hs'V) as (y & Hy & Hys'). fold us in Hy.
+  destruct (In_nth_error _ _ Hy) as [m Hm].
+  assert (HyV : In y V) by (apply uniq_sorted_in; exact Hy).
+  destruct (nth_error_len_some freq m) as [fm Hfm]; [rewrite <- Hlen; apply nth_error_Some; rewrite Hm; discriminate|].
+  pose proof (Forall2_nth _ _ _ Hcl m y fm Hm Hfm) as Hcym.
+  destruct (agg_V_elem freq scol y Hs HyV) as (q & Hqin & Hqc & _).
+  assert (Hfmin : In fm freq) by (eapply nth_error_In; exact Hfm).
+  destruct (agg_row_info freq rtol fm q y y Hs Hn Hfmin Hqc (Qeq_refl y) Hcym) as ([Hbq _] & _ & Hyq).
+  destruct Hp'reg as [Hbp' _]. destruct Hreg as [Hbp _].
+  destruct (Nat.lt_trichotomy m k) as [Hmk|[Hmk|Hmk]].
+  - exfalso. pose proof (FOP_nth _ _ Hs m k fm f Hmk Hfm Hf q p' Hbq Hbp') as Hlt. lra.
+  - subst m. rewrite Hu in Hm. inversion Hm; subst y. lra.
+  - exfalso. pose proof (FOP_nth _ _ Hs k m f fm Hmk Hf Hfm p' q Hbp' Hbq) as Hlt. lra.
+Qed.
+
+Lemma sorted_of_sep freq ps : separated band freq -> Forall2 (fun f p => band f p = true) freq ps -> StronglySorted Qlt ps.
+Proof.
+  unfold separated. intros Hs. revert ps. induction Hs as [|a t Ha Ht IH]; intros ps H2; inversion H2; subst; constructor.
+  - apply IH; assumption.
+  - rewrite Forall_forall in *. intros q Hq. destruct (In_nth_error _ _ Hq) as [k Hk].
+    match goal with H : Forall2 _ t _ |- _ => rename H into H2t end.
+    destruct (nth_error_len_some t k) as [g Hg]; [rewrite (F2_length _ _ _ H2t); apply nth_error_Some; rewrite Hk; discriminate|].
+    pose proof (Forall2_nth _ _ _ H2t k g q Hg Hk) as Hbq. cbn in Hbq.
+    apply (Ha g (nth_error_In _ _ Hg) y q); assumption.
+Qed.
+
+Lemma close_all rtol (R:Q->Q->Prop) freq : forall ps us, (forall f p, R f p -> isclose rtol p f = true) ->
+  Forall2 R freq ps -> Forall2 Qeq us ps ->
+  forallb (fun uf => isclose rtol (fst uf) (snd uf)) (combine us freq) = true.
+Proof.
+  induction freq as [|f t IH]; intros ps us HR Hps Heq.
+  - inversion Hps; subst. inversion Heq; subst. reflexivity.
+  - inversion Hps as [|? p ? ps' Hfp Hps']; subst. inversion Heq as [|u ? us' ? Hup Heq']; subst.
+    cbn [combine forallb fst snd]. apply andb_true_iff. split.
+    + rewrite (isclose_Qeq rtol u p f Hup). apply HR. exact Hfp.
+    + apply (IH ps'); assumption.
+Qed.
+
+Lemma qual_complete freq rtol scol : separated band freq ->
+  Forall (fun f => exists p, col_spec rtol scol f p) freq ->
+  length (uniq_sorted (somes (agg_col band freq scol))) = length freq /\
+  forallb (fun uf => isclose rtol (fst uf) (snd uf)) (combine (uniq_sorted (somes (agg_col band freq scol))) freq) = true.
+Proof.
+  intros Hs Hall. set (V := somes (agg_col band freq scol)) in *. set (us := uniq_sorted V) in *.
+  destruct (Forall_exists_Forall2 _ _ Hall) as [ps Hps].
+  assert (Hsorted : StronglySorted Qlt ps).
+  { apply (sorted_of_sep freq ps Hs). eapply F2_impl; [|exact Hps]. intros f p (_ & [Hb _] & _). exact Hb. }
+  assert (Heq : Forall2 Qeq us ps).
+  { apply sorted_Qeq_ext; [apply uniq_sorted_sorted|exact Hsorted| |].
+    - intros x Hx. assert (HxV : In x V) by (apply uniq_sorted_in; exact Hx).
+      destruct (agg_V_elem freq scol x Hs HxV) as (p & Hpin & _ & Hxp & Hnz & g & Hg & Hbg).
+      destruct (In_nth_error _ _ Hg) as [k Hk].
+      destruct (nth_error_len_some ps k) as [pk Hpk]; [rewrite <- (F2_length _ _ _ Hps); apply nth_error_Some; rewrite Hk; discriminate|].
+      destruct (Forall2_nth _ _ _ Hps k g pk Hk Hpk) as (_ & _ & _ & Huniq).
+      exists pk. split; [eapply nth_error_In; exact Hpk|]. rewrite Hxp. apply Huniq; [exact Hpin|split; assumption].
+    - intros y Hy. destruct (In_nth_error _ _ Hy) as [k Hk].
+      destruct (nth_error_len_some freq k) as [g Hg]; [rewrite (F2_length _ _ _ Hps); apply nth_error_Some; rewrite Hk; discriminate|].
+      destruct (Forall2_nth _ _ _ Hps k g y Hg Hk) as (Hyin & Hreg & _ & _).
+      destruct (agg_V_has freq scol y g Hs Hyin (nth_error_In _ _ Hg) Hreg) as (s & HsV & Hsy).
+      destruct (uniq_sorted_has V s HsV) as (x & Hx & Hxs). exists x. split; [exact Hx|]. rewrite Hxs. exact Hsy. }
+  assert (Hlen : length us = length freq) by (rewrite (F2_length _ _ _ Heq); symmetry; apply (F2_length _ _ _ Hps)).
+  split; [exact Hlen|].
+  apply (close_all rtol (col_spec rtol scol) freq ps us); [|exact Hps|exact Heq].
+  intros f p (_ & _ & Hcl & _). exact Hcl.
+Qed.
+End Band.
+
+(* ------------------------------------------------------------------------------------------------------- *)
+(* from one column to the tables *)
+
+Lemma F2_Forall_l {A B} (R:A->B->Prop) l1 l2 : Forall2 R l1 l2 -> Forall (fun a => exists b, R a b) l1.
+Proof. induction 1; constructor; eauto. Qed.
+
+Lemma first_some_spec {A} (g:nat->option A) n : forall i0,
+  match first_some g n i0 with
+  | Some (i,a) => (i0 <= i < i0 + n)%nat /\ g i = Some a /\ forall j, (i0 <= j < i)%nat -> g j = None
+  | None => forall j, (i0 <= j < i0 + n)%nat -> g j = None
+  end.
+Proof.
+  induction n as [|n IH]; intros i0; cbn [first_some].
+  - intros j Hj. lia.
+  - destruct (g i0) as [a|] eqn:E.
+    + split; [lia|]. split; [exact E|]. intros j Hj. lia.
+    + specialize (IH (S i0)). destruct (first_some g n (S i0)) as [[i a]|].
+      * destruct IH as (H1 & H2 & H3). split; [lia|]. split; [exact H2|]. intros j Hj.
+        destruct (Nat.eq_dec j i0) as [->|Hne]; [exact E|apply H3; lia].
+      * intros j Hj. destruct (Nat.eq_dec j i0) as [->|Hne]; [exact E|apply IH; lia].
+Qed.
+
+Lemma nearest_exact acol u r d : In u (somes acol) -> is_first_argmin (dists acol u) r d ->
+  exists s, nth_error acol r = Some (Some s) /\ s == u.
+Proof.
+  intros Hin (Hr & Hmin & _). destruct (dists_some _ _ _ _ Hr) as (s & Hs & Hd). exists s. split; [exact Hs|].
+  apply in_somes in Hin. destruct (In_nth_error _ _ Hin) as [j Hj].
+  assert (Hdj : nth_error (dists acol u) j = Some (Some (Qabs (u - u)))) by (rewrite dists_nth, Hj; reflexivity).
+  specialize (Hmin j _ Hdj). subst d.
+  assert (H0 : Qabs (u - u) == 0) by (setoid_replace (u - u) with 0 by ring; reflexivity).
+  rewrite H0 in Hmin. apply Qabs_Qle_condition in Hmin. lra.
+Qed.
+
+Lemma rows_of_spec acol us : forall urs, (forall u, In u us -> In u (somes acol)) -> rows_of acol us = Ok urs ->
+  Forall2 (fun u ur => fst ur = u /\ exists s, nth_error acol (snd ur) = Some (Some s) /\ s == u) us urs.
+Proof.
+  induction us as [|u t IH]; intros urs Hin H; cbn [rows_of] in H.
+  - inversion H. constructor.
+  - pose proof (nanargmin_spec (dists acol u)) as Hsp.
+    destruct (nanargmin (dists acol u)) as [[r d]|]; [|discriminate].
+    destruct (rows_of acol t) as [l|e] eqn:El; [|discriminate]. inversion H; subst.
+    constructor; [|apply IH; [intros; apply Hin; right; assumption|reflexivity]].
+    cbn [fst snd]. split; [reflexivity|]. eapply nearest_exact; [apply Hin; left; reflexivity|exact Hsp].
+Qed.
+
+Lemma rows_of_total acol us : (forall u, In u us -> In u (somes acol)) -> exists urs, rows_of acol us = Ok urs.
+Proof.
+  induction us as [|u t IH]; intros Hin; cbn [rows_of]; [eauto|].
+  pose proof (nanargmin_spec (dists acol u)) as Hsp.
+  destruct (nanargmin (dists acol u)) as [[r d]|].
+  - destruct IH as [l Hl]; [intros; apply Hin; right; assumption|]. rewrite Hl. eauto.
+  - exfalso. specialize (Hin u (or_introl eq_refl)). apply in_somes in Hin. destruct (In_nth_error _ _ Hin) as [j Hj].
+    assert (Hlt : (j < length (dists acol u))%nat).
+    { unfold dists. rewrite map_length. apply nth_error_Some. rewrite Hj. discriminate. }
+    specialize (Hsp j Hlt). rewrite dists_nth, Hj in Hsp. discriminate.
+Qed.
+
+Lemma payloads_spec {P} (Pay:list (list P)) c urs : forall vals, payloads Pay c urs = Ok vals ->
+  Forall2 (fun ur vp => fst vp = fst ur /\ cell Pay (snd ur) c = Some (snd vp)) urs vals.
+Proof.
+  induction urs as [|[u r] t IH]; intros vals H; cbn [payloads] in H.
+  - inversion H. constructor.
+  - destruct (cell Pay r c) as [p|] eqn:Ec; [|discriminate].
+    destruct (payloads Pay c t) as [l|e]; [|discriminate]. inversion H; subst.
+    constructor; [cbn; auto|apply IH; reflexivity].
+Qed.
+
+Section FindMin.
+Variable band : Q -> Q -> bool.
+
+Lemma qualifies_col lv Lab Fn freq rtol i scol : getcol (lab_tab lv Lab Fn) i = Some scol ->
+  (qualifies band lv Lab Fn freq rtol i <-> Forall (fun f => exists p, col_spec band rtol scol f p) freq).
+Proof.
+  intros Hg. unfold qualifies. split; intros H; (eapply Forall_impl; [|exact H]); intros f.
+  - intros (r & p & Hst & Hreg & Hcl & Hu). exists p. split; [apply (col_lab_tab lv Lab Fn i scol p Hg); eauto|].
+    split; [exact Hreg|]. split; [exact Hcl|]. intros p' Hin Hreg'.
+    apply (col_lab_tab lv Lab Fn i scol p' Hg) in Hin. destruct Hin as [r' Hr']. eapply Hu; eassumption.
+  - intros (p & Hin & Hreg & Hcl & Hu). apply (col_lab_tab lv Lab Fn i scol p Hg) in Hin. destruct Hin as [r Hr].
+    exists r, p. split; [exact Hr|]. split; [exact Hreg|]. split; [exact Hcl|]. intros r' p' Hst Hreg'.
+    apply Hu; [apply (col_lab_tab lv Lab Fn i scol p' Hg); eauto|exact Hreg'].
+Qed.
+
+Lemma getcol_agg freq S i acol : getcol (agg_tab band freq S) i = Some acol ->
+  exists scol, getcol S i = Some scol /\ acol = agg_col band freq scol.
+Proof.
+  unfold agg_tab, agg_col. rewrite getcol_map. destruct (getcol S i) as [scol|]; cbn; [|discriminate].
+  intros H; inversion H. eauto.
+Qed.
+
+Lemma col_test_none lv Lab Fn freq rtol i : separated band freq ->
+  col_test (agg_tab band freq (lab_tab lv Lab Fn)) freq rtol i = None -> ~ qualifies band lv Lab Fn freq rtol i.
+Proof.
+  intros Hs. unfold col_test. destruct (getcol (agg_tab band freq (lab_tab lv Lab Fn)) i) as [acol|] eqn:Ea; [|discriminate].
+  destruct (getcol_agg _ _ _ _ Ea) as (scol & Hsc & ->). unfold qual_col.
+  intros Hq Hqual. apply (qualifies_col lv Lab Fn freq rtol i scol Hsc) in Hqual.
+  destruct (qual_complete band freq rtol scol Hs Hqual) as [Hlen Hall].
+  rewrite Hlen, Nat.eqb_refl, Hall in Hq. discriminate.
+Qed.
+
+Lemma col_test_ok lv Lab Fn freq rtol i urs : separated band freq -> no_reach band freq rtol ->
+  col_test (agg_tab band freq (lab_tab lv Lab Fn)) freq rtol i = Some (Ok urs) ->
+  qualifies band lv Lab Fn freq rtol i /\
+  Forall2 (fun f ur => exists p, stable_at lv Lab Fn i (snd ur) p /\ fst ur == p /\ region band f p /\ isclose rtol p f = true) freq urs.
+Proof.
+  intros Hs Hn. unfold col_test. destruct (getcol (agg_tab band freq (lab_tab lv Lab Fn)) i) as [acol|] eqn:Ea; [|discriminate].
+  destruct (getcol_agg _ _ _ _ Ea) as (scol & Hsc & ->). unfold qual_col.
+  destruct (length (uniq_sorted (somes (agg_col band freq scol))) =? length freq)%nat eqn:El; [|discriminate].
+  destruct (forallb _ _) eqn:Ef; cbn [andb]; [|discriminate]. intros H; inversion H as [Hrows]; clear H.
+  apply Nat.eqb_eq in El. pose proof (qual_sound band freq rtol scol Hs Hn El Ef) as Hsound. split.
+  - apply (qualifies_col lv Lab Fn freq rtol i scol Hsc). apply F2_Forall_l in Hsound.
+    eapply Forall_impl; [|exact Hsound]. intros f (u & _ & _ & p & _ & Hspec). eauto.
+  - assert (Hin : forall u, In u (uniq_sorted (somes (agg_col band freq scol))) -> In u (somes (agg_col band freq scol)))
+      by (intros u; apply uniq_sorted_in).
+    pose proof (rows_of_spec _ _ urs Hin Hrows) as Hr.
+    pose proof (Forall2_comp _ _ _ _ _ Hsound Hr) as Hc.
+    clear Hr Hsound Hrows Hin.
+    assert (Hgen : forall fs urs0, (forall f, In f fs -> In f freq) ->
+             Forall2 (fun a c => exists b, (In b (somes (agg_col band freq scol)) /\ isclose rtol b a = true /\
+                                            exists p, b == p /\ col_spec band rtol scol a p) /\
+                                           (fst c = b /\ exists s, nth_error (agg_col band freq scol) (snd c) = Some (Some s) /\ s == b)) fs urs0 ->
+             Forall2 (fun f ur => exists p, stable_at lv Lab Fn i (snd ur) p /\ fst ur == p /\ region band f p /\ isclose rtol p f = true) fs urs0).
+    { intros fs urs0 Hsub H2. induction H2 as [|f ur fs' urs' H1 H2 IH]; constructor.
+      - destruct H1 as (u & (HuV & Hcl & _) & (Hfst & s & Hnth & Hsu)).
+        unfold agg_col in Hnth. rewrite nth_error_map in Hnth.
+        destruct (nth_error scol (snd ur)) as [o|] eqn:Eo; [|discriminate]. cbn [option_map] in Hnth.
+        destruct o as [p0|]; [|discriminate]. inversion Hnth as [Hagg]; clear Hnth.
+        destruct (agg_row_info band freq rtol f p0 s u Hs Hn (Hsub f (or_introl eq_refl)) Hagg Hsu Hcl) as (Hreg & Hclp & Hup).
+        exists p0. split; [|split; [rewrite Hfst; exact Hup|split; assumption]].
+        apply cell_lab_tab. eapply getcol_cell; eassumption.
+      - apply IH. intros g Hg. apply Hsub. right; exact Hg. }
+    apply Hgen; [auto|exact Hc].
+Qed.
+
+Theorem mpe_find_min_gen {P} lv Fn (Pay:list (list P)) Lab freq rtol :
+  separated band freq -> no_reach band freq rtol ->
+  match find_min_gen band lv Fn Pay Lab freq rtol with
+  | Ok (vals, OutInt i) =>
+      (i < ncols Fn)%nat /\ qualifies band lv Lab Fn freq rtol i /\
+      (forall i', (i' < i)%nat -> ~ qualifies band lv Lab Fn freq rtol i') /\
+      Forall2 (fun f vp => exists r p, stable_at lv Lab Fn i r p /\ fst vp == p /\ cell Pay r i = Some (snd vp) /\
+                              region band f p /\ isclose rtol p f = true) freq vals
+  | Ok (vals, OutNone) => vals = [] /\ forall i', (i' < ncols Fn)%nat -> ~ qualifies band lv Lab Fn freq rtol i'
+  | Ok (_, OutList _) => False
+  | Err _ => True
+  end.
+Proof.
+  intros Hs Hn. unfold find_min_gen.
+  pose proof (first_some_spec (col_test (agg_tab band freq (lab_tab lv Lab Fn)) freq rtol) (ncols Fn) 0) as Hfs.
+  destruct (first_some _ _ _) as [[i [urs|e]]|].
+  - destruct Hfs as (Hrange & Hgi & Hbefore).
+    destruct (payloads Pay i urs) as [vals|e] eqn:Ep; [|exact I].
+    destruct (col_test_ok lv Lab Fn freq rtol i urs Hs Hn Hgi) as [Hq Hrows].
+    split; [lia|]. split; [exact Hq|]. split.
+    + intros i' Hi'. apply col_test_none; [exact Hs|]. apply Hbefore. lia.
+    + pose proof (Forall2_comp _ _ _ _ _ Hrows (payloads_spec Pay i urs vals Ep)) as Hc.
+      eapply F2_impl; [|exact Hc]. intros f vp (ur & (p & Hst & Hfp & Hreg & Hcl) & (Hfst & Hcell)).
+      exists (snd ur), p. rewrite Hfst. auto.
+  - exact I.
+  - split; [reflexivity|]. intros i' Hi'. apply col_test_none; [exact Hs|]. apply Hfs. lia.
+Qed.
+End FindMin.
+
+(* ------------------------------------------------------------------------------------------------------- *)
+(* no exception on rectangular tables *)
+
+Lemma map2_length {A B C} (h:A->B->C) l1 : forall l2, length l1 = length l2 -> length (map2 h l1 l2) = length l1.
+Proof. induction l1 as [|a t IH]; intros [|b u] H; cbn in *; try discriminate; [reflexivity|]. rewrite IH; lia. Qed.
+
+Lemma rect_map2 {A B C} (h:A->B->C) n m L : forall F, rect n m L -> rect n m F -> rect n m (map2 (map2 h) L F).
+Proof.
+  intros F [HnL HmL] [HnF HmF]. split.
+  - rewrite map2_length; [exact HnL|congruence].
+  - clear HnL HnF. revert F HmF. induction HmL as [|rl L' Hrl HL' IH]; intros F HmF; [constructor|].
+    destruct F as [|rf F']; [constructor|]. inversion HmF as [|? ? Hrf HF']. cbn [map2]. constructor; [|apply IH; assumption].
+    rewrite map2_length; [exact Hrl|congruence].
+Qed.
+
+Lemma rect_map {A B} (g:A->B) n m T : rect n m T -> rect n m (map (map g) T).
+Proof.
+  intros [Hn Hm]. split; [rewrite map_length; exact Hn|]. rewrite Forall_forall in *. intros row Hin.
+  apply in_map_iff in Hin. destruct Hin as (r0 & <- & Hr0). rewrite map_length. apply Hm. exact Hr0.
+Qed.
+
+Lemma getcol_rect {A} n m (T:list (list A)) i : rect n m T -> (i < m)%nat -> exists col, getcol T i = Some col.
+Proof. intros [_ Hm] Hi. apply getcol_some. rewrite Forall_forall in Hm. intros row Hin. rewrite (Hm row Hin). exact Hi. Qed.
+
+Lemma ncols_rect {A} n m (T:list (list A)) i : rect n m T -> (i < ncols T)%nat -> ncols T = m /\ (0 < n)%nat.
+Proof.
+  intros [Hn Hm] Hi. destruct T as [|row T']; cbn [ncols] in *; [lia|]. inversion Hm; subst. split; [reflexivity|cbn; lia].
+Qed.
+
+Lemma rows_of_bound acol us : forall urs, rows_of acol us = Ok urs -> Forall (fun ur => (snd ur < length acol)%nat) urs.
+Proof.
+  induction us as [|u t IH]; intros urs H; cbn [rows_of] in H.
+  - inversion H. constructor.
+  - pose proof (nanargmin_spec (dists acol u)) as Hsp.
+    destruct (nanargmin (dists acol u)) as [[r d]|]; [|discriminate].
+    destruct (rows_of acol t) as [l|e]; [|discriminate]. inversion H; subst. constructor; [|apply IH; reflexivity].
+    cbn [snd]. destruct Hsp as (Hr & _). destruct (dists_some _ _ _ _ Hr) as (s & Hs & _).
+    apply nth_error_Some. rewrite Hs. discriminate.
+Qed.
+
+Lemma payloads_total {P} n m (Pay:list (list P)) c urs : rect n m Pay -> (c < m)%nat ->
+  Forall (fun ur => (snd ur < n)%nat) urs -> exists vals, payloads Pay c urs = Ok vals.
+Proof.
+  intros HP Hc. induction 1 as [|[u r] t H1 H2 IH]; cbn [payloads]; [eauto|]. cbn [snd] in H1.
+  destruct (cell_rect n m Pay r c HP H1 Hc) as [x Hx]. rewrite Hx. destruct IH as [l Hl]. rewrite Hl. eauto.
+Qed.
+
+Theorem find_min_gen_total {P} band lv n m Fn (Pay:list (list P)) Lab freq rtol :
+  rect n m Fn -> rect n m Lab -> rect n m Pay ->
+  exists vals oo, find_min_gen band lv Fn Pay Lab freq rtol = Ok (vals, oo).
+Proof.
+  intros HF HL HP. unfold find_min_gen.
+  assert (HA : rect n m (agg_tab band freq (lab_tab lv Lab Fn))).
+  { unfold agg_tab, agg_col. apply rect_map. unfold lab_tab. apply rect_map2; assumption. }
+  pose proof (first_some_spec (col_test (agg_tab band freq (lab_tab lv Lab Fn)) freq rtol) (ncols Fn) 0) as Hfs.
+  destruct (first_some _ _ _) as [[i x]|]; [|eauto].
+  destruct Hfs as (Hrange & Hgi & _).
+  destruct (ncols_rect n m Fn i HF) as [Hnc Hn0]; [lia|].
+  assert (Him : (i < m)%nat) by lia.
+  unfold col_test in Hgi. destruct (getcol_rect n m _ i HA Him) as [acol Hac]. rewrite Hac in Hgi.
+  unfold qual_col in Hgi. destruct (_ && _)%bool; [|discriminate]. inversion Hgi as [Hrows]; clear Hgi.
+  destruct (rows_of_total acol (uniq_sorted (somes acol)) (uniq_sorted_in (somes acol))) as [urs Hurs].
+  rewrite Hurs. pose proof (rows_of_bound _ _ _ Hurs) as Hb.
+  destruct (getcol_nth _ _ _ Hac) as [Hlen _]. destruct HA as [HAn _]. rewrite Hlen, HAn in Hb.
+  destruct (payloads_total n m Pay i urs HP Him Hb) as [vals Hv]. rewrite Hv. eauto.
+Qed.
+
+(* ------------------------------------------------------------------------------------------------------- *)
+(* the two concrete bands *)
+
+Lemma inb_spec rtol f p : inb rtol f p = true <-> f - rtol <= p /\ p <= f + rtol.
+Proof. unfold inb. rewrite andb_true_iff, !Qle_bool_iff. tauto. Qed.
+
+Lemma inbs_spec d f p : inbs d f p = true <-> f - d < p /\ p < f + d.
+Proof. unfold inbs. rewrite andb_true_iff, !Qlt_bool_iff. tauto. Qed.
+
+Lemma FOP_impl {A} (R S:A->A->Prop) l : (forall a b, R a b -> S a b) -> ForallOrdPairs R l -> ForallOrdPairs S l.
+Proof. intros H. induction 1 as [|a t Ha Ht IH]; constructor; [|exact IH]. eapply Forall_impl; [|exact Ha]. apply H. Qed.
+
+Lemma separated_inb rtol freq : ForallOrdPairs (fun f g => f + rtol < g - rtol) freq -> separated (inb rtol) freq.
+Proof.
+  apply FOP_impl. intros f g Hfg p p' Hp Hp'. apply inb_spec in Hp. apply inb_spec in Hp'. lra.
+Qed.
+
+Lemma separated_inbs d freq : ForallOrdPairs (fun f g => f + d <= g - d) freq -> separated (inbs d) freq.
+Proof.
+  apply FOP_impl. intros f g Hfg p p' Hp Hp'. apply inbs_spec in Hp. apply inbs_spec in Hp'. lra.
+Qed.
+
+Lemma no_reach_inb rtol freq :
+  (forall f g, In f freq -> In g freq -> f = g \/ rtol + (atol + rtol * Qabs g) < Qabs (f - g)) -> no_reach (inb rtol) freq rtol.
+Proof.
+  intros H f g p Hf Hg Hb Hc. destruct (H f g Hf Hg) as [Heq|Hlt]; [exact Heq|exfalso].
+  apply inb_spec in Hb. apply isclose_spec in Hc. set (B := atol + rtol * Qabs g) in *.
+  apply Qabs_Qle_condition in Hc.
+  assert (Hle : Qabs (f - g) <= rtol + B) by (apply Qabs_Qle_condition; split; lra). lra.
+Qed.
+
+Lemma no_reach_inbs d rtol freq :
+  (forall f g, In f freq -> In g freq -> f = g \/ d + (atol + rtol * Qabs g) <= Qabs (f - g)) -> no_reach (inbs d) freq rtol.
+Proof.
+  intros H f g p Hf Hg Hb Hc. destruct (H f g Hf Hg) as [Heq|Hlt]; [exact Heq|exfalso].
+  apply inbs_spec in Hb. apply isclose_spec in Hc. set (B := atol + rtol * Qabs g) in *.
+  apply Qabs_Qle_condition in Hc.
+  assert (Hle : Qabs (f - g) < d + B).
+  { destruct (Qlt_le_dec (f - g) 0) as [Hneg|Hpos].
+    - rewrite Qabs_neg by lra. lra.
+    - rewrite Qabs_pos by lra. lra. }
+  lra.
+Qed.
+
+(* SSI_mpe(order="find_min") *)
+Theorem mpe_find_min {P} Fn (Pay:list (list P)) Lab freq rtol :
+  ForallOrdPairs (fun f g => f + rtol < g - rtol) freq ->
+  (forall f g, In f freq -> In g freq -> f = g \/ rtol + (atol + rtol * Qabs g) < Qabs (f - g)) ->
+  match ssi_mpe Fn Pay Lab freq FindMin rtol with
+  | Ok (vals, OutInt i) =>
+      (i < ncols Fn)%nat /\ qualifies (inb rtol) 1 Lab Fn freq rtol i /\
+      (forall i', (i' < i)%nat -> ~ qualifies (inb rtol) 1 Lab Fn freq rtol i') /\
+      Forall2 (fun f vp => exists r p, stable_at 1 Lab Fn i r p /\ fst vp == p /\ cell Pay r i = Some (snd vp) /\
+                              region (inb rtol) f p /\ isclose rtol p f = true) freq vals
+  | Ok (vals, OutNone) => vals = [] /\ forall i', (i' < ncols Fn)%nat -> ~ qualifies (inb rtol) 1 Lab Fn freq rtol i'
+  | Ok (_, OutList _) => False
+  | Err _ => True
+  end.
+Proof.
+  intros H1 H2. exact (mpe_find_min_gen (inb rtol) 1 Fn Pay Lab freq rtol (separated_inb rtol freq H1) (no_reach_inb rtol freq H2)).
+Qed.
+
+Theorem mpe_find_min_total {P} n m Fn (Pay:list (list P)) Lab freq rtol :
+  rect n m Fn -> rect n m Lab -> rect n m Pay -> exists vals oo, ssi_mpe Fn Pay Lab freq FindMin rtol = Ok (vals, oo).
+Proof. apply find_min_gen_total. Qed.
+
+(* pLSCF_mpe(order="find_min") as the property wants it (stable = label 1) *)
+Theorem plscf_find_min_conforming_spec {P} Fn (Pay:list (list P)) Lab freq deltaf rtol :
+  ForallOrdPairs (fun f g => f + deltaf <= g - deltaf) freq ->
+  (forall f g, In f freq -> In g freq -> f = g \/ deltaf + (atol + rtol * Qabs g) <= Qabs (f - g)) ->
+  match plscf_find_min_conforming Fn Pay Lab freq deltaf rtol with
+  | Ok (vals, OutInt i) =>
+      (i < ncols Fn)%nat /\ qualifies (inbs deltaf) 1 Lab Fn freq rtol i /\
+      (forall i', (i' < i)%nat -> ~ qualifies (inbs deltaf) 1 Lab Fn freq rtol i') /\
+      Forall2 (fun f vp => exists r p, stable_at 1 Lab Fn i r p /\ fst vp == p /\ cell Pay r i = Some (snd vp) /\
+                              region (inbs deltaf) f p /\ isclose rtol p f = true) freq vals
+  | Ok (vals, OutNone) => vals = [] /\ forall i', (i' < ncols Fn)%nat -> ~ qualifies (inbs deltaf) 1 Lab Fn freq rtol i'
+  | Ok (_, OutList _) => False
+  | Err _ => True
+  end.
+Proof.
+  intros H1 H2. exact (mpe_find_min_gen (inbs deltaf) 1 Fn Pay Lab freq rtol (separated_inbs deltaf freq H1) (no_reach_inbs deltaf rtol freq H2)).
+Qed.
+
+(* ------------------------------------------------------------------------------------------------------- *)
+(* the present pLSCF code selects Lab == 7; gen.SC_apply writes 0/1: refutation witness *)
+Definition wit_Fn : tab := [[Some (5#1); Some (5#1); Some (5#1)]; [None; Some (9#1); None]].
+Definition wit_Lab : list (list Z) := [[1;1;1];[0;0;0]]%Z.
+Definition wit_Pay : list (list nat) := id_tab 2 3.
+Definition wit_freq : list Q := [5#1].
+
+Theorem plscf_find_min_refuted :
+  exists (Fn:tab) (Pay:list (list nat)) (Lab:list (list Z)) (freq:list Q) (deltaf rtol:Q) vals i z,
+    Forall (Forall (fun l => l = 0%Z \/ l = 1%Z)) Lab /\ rect 2 3 Fn /\ rect 2 3 Lab /\ rect 2 3 Pay /\
+    ForallOrdPairs (fun f g => f + deltaf <= g - deltaf) freq /\
+    plscf_find_min_conforming Fn Pay Lab freq deltaf rtol = Ok (vals, OutInt i) /\ vals <> [] /\
+    plscf_find_min_present Fn Pay Lab freq deltaf rtol = Ok ([], [], z) /\ z <> Z.of_nat i.
+Proof.
+  exists wit_Fn, wit_Pay, wit_Lab, wit_freq, (1#20), (1#100). eexists. exists 0%nat, 1%Z.
+  split; [repeat (apply Forall_cons || apply Forall_nil); ((left; reflexivity) || (right; reflexivity))|].
+  split; [split; [reflexivity|repeat constructor]|].
+  split; [split; [reflexivity|repeat constructor]|]. split; [split; [reflexivity|repeat constructor]|].
+  split; [repeat constructor|]. split; [vm_compute; reflexivity|]. split; [discriminate|].
+  split; [vm_compute; reflexivity|discriminate].
+Qed.
+
+(* ... and not only on the witness: whatever the table, if no label equals 7 (gen.SC_apply writes 0 and 1 only) the present
+   code returns no pole at all and reports the last-but-one order *)
+Lemma map2_row_blind lv (rl:list Z) : forall (rf:list (option Q)), Forall (fun l => l <> lv) rl ->
+  Forall (fun o => o = None) (map2 (fun (l:Z) (p:option Q) => if Z.eqb l lv then p else None) rl rf).
+Proof.
+  induction rl as [|l t IH]; intros [|p u] H; cbn [map2]; try constructor.
+  - inversion H as [|? ? Hl Ht]; subst. destruct (Z.eqb l lv) eqn:E; [apply Z.eqb_eq in E; contradiction|reflexivity].
+  - apply IH. inversion H; assumption.
+Qed.
+
+Lemma lab_tab_blind lv Lab : forall Fn, Forall (Forall (fun l => l <> lv)) Lab ->
+  Forall (Forall (fun o => o = None)) (lab_tab lv Lab Fn).
+Proof.
+  unfold lab_tab. induction Lab as [|rl L IH]; intros [|rf F] H; cbn [map2]; try constructor.
+  - apply map2_row_blind. inversion H; assumption.
+  - apply IH. inversion H; assumption.
+Qed.
+
+Lemma agg_tab_blind band freq S : Forall (Forall (fun o => o = None)) S -> Forall (Forall (fun o => o = None)) (agg_tab band freq S).
+Proof.
+  unfold agg_tab, agg_col. intros H. induction H as [|row S' Hrow HS IH]; cbn [map]; constructor; [|exact IH].
+  induction Hrow as [|o row' Ho Hrow' IH']; cbn [map]; constructor; [subst; reflexivity|exact IH'].
+Qed.
+
+Lemma getcol_blind (T:tab) i : forall col, Forall (Forall (fun o => o = None)) T -> getcol T i = Some col -> somes col = [].
+Proof.
+  induction T as [|row T IH]; intros col H Hg; cbn [getcol] in Hg.
+  - inversion Hg. reflexivity.
+  - destruct (nth_error row i) as [x|] eqn:Ex; [|discriminate]. destruct (getcol T i) as [l|] eqn:El; [|discriminate].
+    inversion Hg; subst. inversion H as [|? ? Hrow HT]; subst. rewrite Forall_forall in Hrow.
+    rewrite (Hrow x (nth_error_In _ _ Ex)). cbn [somes]. apply IH; [exact HT|reflexivity].
+Qed.
+
+Lemma plscf_scan_blind (A:tab) freq rtol last : Forall (Forall (fun o => o = None)) A ->
+  forall fuel i z us, plscf_scan A freq rtol last fuel i = Ok (z, us) -> us = [] /\ z = (Z.of_nat last - 1)%Z.
+Proof.
+  intros HA. induction fuel as [|fuel IH]; intros i z us H; cbn [plscf_scan] in H; [discriminate|].
+  destruct (getcol A i) as [col|] eqn:Ec; [|discriminate].
+  rewrite (getcol_blind A i col HA Ec) in H. cbn [uniq_sorted fold_right combine existsb] in H. rewrite andb_false_r in H.
+  destruct (i =? last)%nat eqn:Ei.
+  - apply Nat.eqb_eq in Ei. inversion H; subst. auto.
+  - eapply IH; exact H.
+Qed.
+
+Theorem plscf_present_blind {P} Fn (Pay:list (list P)) Lab freq deltaf rtol :
+  Forall (Forall (fun l => l <> 7%Z)) Lab ->
+  match plscf_find_min_present Fn Pay Lab freq deltaf rtol with
+  | Ok (us, ps, z) => us = [] /\ ps = [] /\ z = (Z.of_nat (ncols Fn - 1) - 1)%Z
+  | Err _ => True
+  end.
+Proof.
+  intros HL. unfold plscf_find_min_present, plscf_find_min_lab.
+  pose proof (agg_tab_blind (inbs deltaf) freq _ (lab_tab_blind 7 Lab Fn HL)) as HA.
+  destruct (plscf_scan _ freq rtol (ncols Fn - 1) (ncols Fn) 0) as [[z us]|e] eqn:Es; [|exact I].
+  destruct (plscf_scan_blind _ freq rtol (ncols Fn - 1) HA _ _ _ _ Es) as [-> ->].
+  destruct (getcol _ _) as [b|] eqn:Eb; [|exact I].
+  rewrite (getcol_blind _ _ b HA Eb). auto.
+Qed.
